@@ -114,6 +114,40 @@ def make_pair(S, shape):
     return pair
 
 
+def make_alias(S, shape):
+    """what a decode returns belongs to the caller: after the caller has changed the list-valued fields of a decoded
+    message IN PLACE (append / item assignment, as setBit() and friends do), a fresh decode of the same bytes still yields
+    exactly the wire values, and the two messages share no list. Runs on the real bit (un)packing, not on its contract."""
+    L = S.blen(shape)
+
+    def alias(b1: bytes) -> bool:
+        assume(len(b1) == L)
+        for c in S.wf(b1, shape):
+            assume(c)
+        m1 = _decoder(S.dir).decode(bytes([S.fc]) + b1)
+        if m1 is None:
+            return False
+        lists1 = [v for v in vars(m1).values() if type(v) is list]
+        for lst in lists1:
+            if len(lst) > 0:
+                lst[0] = lst[-1]
+                lst.append(lst[0])
+            else:
+                lst.append(0)
+        m2 = _decoder(S.dir).decode(bytes([S.fc]) + b1)
+        if m2 is None or m2 is m1:
+            return False
+        for v in vars(m2).values():
+            if type(v) is list and any(v is w for w in lists1):
+                explain("two decoded messages share one list object")
+                return False
+        if not fields_equal(S.get(m2, shape), S.fields(b1, shape)):
+            explain("a fresh decode differs from its wire bytes after an earlier decoded message was modified in place")
+            return False
+        return True
+    return alias
+
+
 def make_exc(fc):
     def exc(code: int) -> bool:
         from pymodbus.pdu import ExceptionResponse
@@ -177,6 +211,16 @@ def obligations(tier):
         out.append(Obl("pair." + S.key(shape), make_pair(S, shape), timeout=T, contracts=contracts,
                        lemmas=("K3",) if contracts else (), whole_finding=wf,
                        bounds="two independent %s PDUs of shape %s decoded / encoded one after the other in one process, all body bytes symbolic" % (S.dir, shape)))
+    for S in pdu.all_specs():
+        if kf("dec", S, S.shapes("quick")[0]):
+            continue
+        # the smallest shape with a non-empty list (bit lists: one data byte)
+        cand = [sh for sh in S.shapes(tier) if S.blen(sh) > 0]
+        if not cand or isinstance(S, (pdu.Fixed, pdu.Diag)):
+            continue        # (classes without list-valued fields)
+        sh = min(cand, key=S.blen)
+        out.append(Obl("alias." + S.key(sh), make_alias(S, sh), timeout=T,
+                       bounds="%s PDU of shape %s decoded, its list fields modified in place, the same bytes decoded again: wire values, no shared list; real unpack_bitstring" % (S.dir, sh)))
     for fc in pdu.SUPPORTED_FCS:
         out.append(Obl("exc.fc%d" % fc, make_exc(fc), bounds="function code %d, all 256 exception codes" % fc, timeout=T))
     for S in pdu.all_specs():
